@@ -36,7 +36,7 @@ func runSpecialWorldsC08(r *ev.Run) {
 	}
 	r.Require("world_features", "epoch/date-attr-at-or-next-to-unix-epoch", "epoch/camliContent-file-with-modtime-0",
 		"created-time/exactly-unix-epoch", "created-time/exactly-unix-epoch-in-non-UTC-notation", "created-time/within-the-epoch-second",
-		"created-time/pre-1970", "created-time/post-1970", "mod-time/pre-1970", "mod-time/post-1970", "mod-time/one-second-off-the-unix-epoch",
+		"created-time/pre-1970", "created-time/post-1970", "mod-time/pre-1970", "mod-time/post-1970",
 		"far/date-attr-outside-1678-2262", "created-time/before-1678", "created-time/after-2262", "created-time/year-1-or-9999")
 	r.Require("special_times", "time-constraint/after=unix-epoch/some-candidates-older", "time-constraint/after-within-epoch-second/some-candidates-older",
 		"time-constraint/bound-outside-1678-2262", "sorted-source/result-has-time-outside-1678-2262", "sorted-source/limit-cuts-result-with-time-outside-1678-2262",
